@@ -51,7 +51,9 @@ Ghost0 == [don    |-> [e \in EscAccts |-> ZeroD],      \* donated and not yet sw
            vestOut|-> [i \in 1..NA |-> 0],              \* vesting escrow -> auctioneer
            sweptSell |-> [i \in 1..NA |-> 0],           \* donations swept out of the selling escrow
            sweptPay  |-> [i \in 1..NA |-> 0],
-           fees   |-> ZeroD]                            \* fees of accepted messages
+           fees   |-> ZeroD,                           \* fees of accepted messages
+           prevM  |-> [i \in 1..NA |-> 0],             \* C13: number of bids matched at the auction's previous end time (0: none yet)
+           peakM  |-> [i \in 1..NA |-> 0]]             \* largest number of bids matched at any earlier end time (goal-directed coverage only)
 
 FeeOf(step) ==
   LET m == step.act IN
@@ -98,8 +100,13 @@ GhostNext(g, step) ==
                             IF i <= NAuc(post) THEN @[i] + Flow(xs, PayAcc(i - 1), VestAcc(i - 1), A(i).payDenom) ELSE @[i]],
                !.vestOut = [i \in 1..NA |->
                             IF i <= NAuc(post) THEN @[i] + Flow(xs, VestAcc(i - 1), A(i).auctioneer, A(i).payDenom) ELSE @[i]],
-               !.fees = [d \in Denoms |-> @[d] + IF fee.d = d THEN fee.n ELSE 0]]
-  IN g3
+               !.fees = [d \in Denoms |-> @[d] + IF fee.d = d THEN fee.n ELSE 0],
+               \* the matching the specification computes at an end time, not the count the code chose to store
+               !.prevM = [i \in 1..NA |->
+                            IF ok /\ m.a = "Block" /\ i <= NAuc(pre) /\ pre.auctions[i].status = "Started" /\ pre.auctions[i].type = "B"
+                               /\ pre.auctions[i].ends[Len(pre.auctions[i].ends)] <= m.t
+                            THEN Cardinality(Clearing(pre.bids[i], pre.allowed[i], pre.auctions[i].sellAmt).matched) ELSE @[i]]]
+  IN [g3 EXCEPT !.peakM = [i \in 1..NA |-> IF g3.prevM[i] > @[i] THEN g3.prevM[i] ELSE @[i]]]
 
 ----------------------------------------------------------------------------
 (* Declarative clearing (C03): lowest bid price whose capped demand fits supply *)
@@ -437,7 +444,7 @@ Holds(c, step, g, g2) ==
         LET a == pre.auctions[i] b == post.auctions[i] IN
         (a.status = "Started" /\ a.type = "B" /\ Last(a.ends) <= m.t) =>
            LET cur == Cardinality(Clearing(pre.bids[i], pre.allowed[i], a.sellAmt).matched)
-               ext == ExtendDecision(a, pre.lastMatched[i], cur)
+               ext == ExtendDecision(a, g.prevM[i], cur)
            IN IF ext THEN b.status = "Started" /\ Len(b.ends) = Len(a.ends) + 1
               ELSE b.status \in {"Vesting", "Finished"} /\ b.ends = a.ends
   [] c = "C13.limit" -> (m.a = "Block" /\ ok) => \A i \in 1..nPre :
@@ -526,4 +533,38 @@ Holds(c, step, g, g2) ==
         /\ (nPost > nPre => m.a \in {"CreateFixed", "CreateBatch"})
 
 Fails(step, g, g2, cs) == {c \in cs \cap ClauseIds : ~Holds(c, step, g, g2)}
+
+----------------------------------------------------------------------------
+(* Named situations for goal-directed transition coverage (FRShell!EmitT with Goals # {}): in a large bounded   *)
+(* instance only the transitions in which such a situation occurs are handed to the real code.  They are the  *)
+(* situations that a uniform sample of a large instance, or a random generator, reaches too rarely.           *)
+GoalNames == {"rematch_after_empty_round", "empty_round_after_match", "rate_boundary", "cap_with_other_auction",
+              "two_settle_in_block", "exact_remaining"}
+Goal(n, step, g) ==
+  LET pre == step.pre
+      m   == step.act
+      ok  == step.res.ok
+      nA  == Len(pre.auctions)
+      Closing(i) == LET a == pre.auctions[i] IN
+                      m.a = "Block" /\ ok /\ a.status = "Started" /\ a.type = "B" /\ a.ends[Len(a.ends)] <= m.t
+      Cur(i) == Cardinality(Clearing(pre.bids[i], pre.allowed[i], pre.auctions[i].sellAmt).matched)
+      RoundsLeft(i) == Len(pre.auctions[i].ends) < pre.auctions[i].maxExt + 1
+  IN
+  CASE n = "rematch_after_empty_round" ->
+         \E i \in 1..nA : Closing(i) /\ RoundsLeft(i) /\ g.peakM[i] > 0 /\ g.prevM[i] = 0 /\ Cur(i) > 0
+    [] n = "empty_round_after_match" ->
+         \E i \in 1..nA : Closing(i) /\ g.prevM[i] > 0 /\ Cur(i) = 0
+    [] n = "rate_boundary" ->
+         \E i \in 1..nA : Closing(i) /\ RoundsLeft(i) /\ g.prevM[i] > 0
+                           /\ (g.prevM[i] - Cur(i)) * D = pre.auctions[i].extRate * g.prevM[i]
+    [] n = "cap_with_other_auction" ->     \* a further bid of a bidder who also holds a bid in another auction
+         /\ m.a = "Bid" /\ m.id \in 0..(nA - 1) /\ m.by \in Users
+         /\ \E k \in 1..Len(pre.bids[m.id + 1]) : pre.bids[m.id + 1][k].bidder = m.by
+         /\ \E j \in 1..nA : j # m.id + 1 /\ \E k \in 1..Len(pre.bids[j]) : pre.bids[j][k].bidder = m.by
+    [] n = "two_settle_in_block" ->
+         m.a = "Block" /\ ok /\ Cardinality({i \in 1..nA : pre.auctions[i].status = "Started" /\ step.post.auctions[i].status # "Started"}) >= 2
+    [] n = "exact_remaining" ->
+         /\ m.a = "Bid" /\ m.id \in 0..(nA - 1) /\ pre.auctions[m.id + 1].type = "F" /\ ok
+         /\ step.post.auctions[m.id + 1].remaining = 0
+    [] OTHER -> FALSE
 =============================================================================
